@@ -130,15 +130,8 @@ func (ex *Exec) refAxiom(key, name string, srt Sort, alloc string) {
 		}
 	}
 	if lo == "" {
-		switch srt {
-		case SArr(SInt, SInt):
-			ex.sc.Assume(fmt.Sprintf("(forall ((o Int)) (! (<= (select %s o) %s) :pattern ((select %s o))))", name, hi, name))
-		case SArr(SInt, SArr(SInt, SInt)):
-			ex.sc.Assume(fmt.Sprintf("(forall ((a Int) (p Int)) (! (<= (select (select %s a) p) %s) :pattern ((select (select %s a) p))))", name, hi, name))
-		case SInt:
-			ex.sc.Assume(fmt.Sprintf("(<= %s %s)", name, hi))
-		}
-		return
+		// virtual references of existing objects lie in [-(alloc+1)*N, -1]
+		lo = fmt.Sprintf("(- (* (+ %s 1) %d))", alloc, len(addressable))
 	}
 	if lo != "0" {
 		switch srt {
